@@ -50,11 +50,11 @@ let answer w obs =
   | ["D"; s] -> string_of_int (n2i (dimension (parse_simplex s)))
   | ["F"; k; s] ->
     let s = parse_simplex s and k = i2n (int_of_string k) in
-    String.concat " " (List.map sstr (faces k s)) ^ " # " ^ ok (faces_ok k s && faces_cofaces_ok k s)
+    String.concat " " (List.map sstr (faces k s)) ^ " # " ^ ok (faces_ok k s && (!d > 5 || faces_cofaces_ok k s))
   | ["FT"; s] ->
     let s = parse_simplex s in
     let k = i2n (n2i (dimension s) - 1) in
-    String.concat " " (List.map sstr (facets s)) ^ " # " ^ ok (faces_ok k s && faces_cofaces_ok k s)
+    String.concat " " (List.map sstr (facets s)) ^ " # " ^ ok (faces_ok k s && (!d > 5 || faces_cofaces_ok k s))
   | ["C"; l; s] ->
     let s = parse_simplex s and l = i2n (int_of_string l) in
     String.concat " " (List.map sstr (cofaces l s)) ^ " # " ^ ok (cofaces_ok l s)
